@@ -46,6 +46,8 @@ def run(repo, rep):
     _memo_rule(repo, rep, 'C18', 'C18.Z1')
     from ..pitfalls import log_rule as _log_rule
     _log_rule(repo, rep, 'C18', 'C18.Z2')
+    from ..api_pitfalls import truth_rule as _truth_rule
+    _truth_rule(repo, rep, 'C18', 'C18.Z4')
     st = repo.module('statuses')
     dm = repo.module('dimsemessages')
     hier = exc_hierarchy(repo)
